@@ -103,9 +103,11 @@ def build_key_evaluator(function: str, new_function: str, arg_a: Any, arg_b: Any
     if function.startswith("ForAllValues") or function.startswith("ForAnyValue") or isinstance(arg_b, list):
         nodes = [build_root_evaluator(new_function, (arg_a, item)) for item in convert_to_list(arg_b)]
         combine_context = all if function.startswith("ForAllValues") else any
+        # Several values are alternatives for a positive operator and jointly excluded for a negated one
+        combine_values = all if "Not" in new_function else any
 
         def all_nodes(kwargs):
-            return any(node(kwargs) for node in nodes)
+            return combine_values(node(kwargs) for node in nodes)
 
         return lambda kwargs: combine_context(
             all_nodes({**kwargs, arg_a: item}) for item in convert_to_list(kwargs[arg_a])
